@@ -216,6 +216,11 @@ impl SwiftField for Field59A {
         }
 
         let bic = parse_bic(lines[bic_line_idx])?;
+        if lines.len() > bic_line_idx + 1 {
+            return Err(ParseError::InvalidFormat {
+                message: "Field 59A has no line after the BIC".to_string(),
+            });
+        }
 
         Ok(Field59A { account, bic })
     }
